@@ -15,6 +15,13 @@ pub mod misp;
 pub mod max2sat;
 pub mod mcp;
 pub mod golomb;
+pub mod lcs;
+pub mod sop;
+pub mod srflp;
+pub mod tsptw;
+pub mod talentsched;
+pub mod psp;
+pub mod alp;
 
 /// One generated instance of an example.
 #[derive(Debug, Clone)]
@@ -46,7 +53,7 @@ pub struct ExampleSpec {
 
 pub fn ncpus() -> usize { num_cpus::get() }
 pub fn specs() -> Vec<ExampleSpec> {
-    vec![knapsack::spec(), misp::spec(), max2sat::spec(), mcp::spec(), golomb::spec()]
+    vec![knapsack::spec(), misp::spec(), max2sat::spec(), mcp::spec(), golomb::spec(), lcs::spec(), sop::spec(), srflp::spec(), tsptw::spec(), talentsched::spec(), psp::spec(), alp::spec()]
 }
 pub fn spec_of(name: &str) -> Option<ExampleSpec> { specs().into_iter().find(|s| s.name == name) }
 
@@ -78,6 +85,8 @@ pub fn run_example(name: &str, argv: &[String], threads_for_sched: usize, sched_
 
 pub fn parse_objective(stdout: &str) -> Option<i64> {
     for l in stdout.lines() { if let Some(rest) = l.strip_prefix("Objective:") { return rest.trim().parse::<f64>().ok().map(|x| x.round() as i64); } }
+    // tsptw prints no `Objective:` line: its value is on `lower bnd: <x.xx>` (`+inf` when infeasible -> saturates to i64::MAX)
+    for l in stdout.lines() { if let Some(rest) = l.strip_prefix("lower bnd:") { return rest.trim().parse::<f64>().ok().map(|x| x.round() as i64); } }
     None
 }
 
@@ -95,8 +104,9 @@ pub fn judge(name: &str, inst: &ExInstance, res: &ExRunResult, ctx: &str) -> Vec
         None => v.push(Violation { props: c16, class: "example-no-objective-line".into(), msg: format!("example {name} printed no parsable `Objective:` line; {ctx}") }),
         Some(got) => {
             let want = inst.expected.unwrap_or(inst.no_solution_prints);
-            if got != want { v.push(Violation { props: c16, class: "example-wrong-objective".into(), msg: format!("example {name} printed Objective {got}, independent exhaustive enumeration gives {}; {ctx}", match inst.expected { Some(x) => x.to_string(), None => format!("no feasible solution (the program prints {} then)", inst.no_solution_prints) }) }); }
-            if res.stdout.lines().any(|l| l.starts_with("Aborted:") && l.contains("true")) { v.push(Violation { props: vec!["C16".into()], class: "example-aborted".into(), msg: format!("example {name} reports Aborted: true although no time limit was given; {ctx}") }); }
+            if got != want { v.push(Violation { props: c16, class: "example-wrong-objective".into(), msg: format!("example {name} printed Objective {got} [{}], independent exhaustive enumeration gives {}; {ctx}", if inst.expected.is_none() { "although there is no solution" } else if got == inst.no_solution_prints { "i.e. no solution" } else if got < want { "printed value below the expected one" } else { "printed value above the expected one" }, match inst.expected { Some(x) => x.to_string(), None => format!("no feasible solution (the program prints {} then)", inst.no_solution_prints) }) }); }
+            // (tsptw prints `status   : Proved` / `status   : Timeout` instead of `Aborted: false/true`)
+            if res.stdout.lines().any(|l| (l.starts_with("Aborted:") && l.contains("true")) || (l.starts_with("status") && !l.contains("Proved"))) { v.push(Violation { props: vec!["C16".into()], class: "example-aborted".into(), msg: format!("example {name} reports Aborted: true (tsptw: a status other than Proved) although no time limit was given; {ctx}") }); }
         }
     }
     v
@@ -108,7 +118,7 @@ pub fn run_example_arm(arm: &str, seed: u64, run: u64, agg: &mut Agg, explicit: 
     let spec = spec_of(name)?;
     let mut rng = Rng::new(seed);
     let (inst, width, threads, sched_seed, strategy): (ExInstance, Option<usize>, usize, u64, Option<String>) = match explicit {
-        Some(p) => (ExInstance { content: p["content"].as_str()?.to_string(), file_name: p["file_name"].as_str()?.to_string(), expected: p["expected"].as_i64(), no_solution_prints: p["no_solution_prints"].as_i64().unwrap_or(-1), describe: String::new() },
+        Some(p) => (ExInstance { content: p["content"].as_str()?.to_string(), file_name: p["file_name"].as_str()?.to_string(), expected: p["expected"].as_i64(), no_solution_prints: p["no_solution_prints"].as_i64().unwrap_or(-1), describe: p["describe"].as_str().unwrap_or("").to_string() },
                     p["width"].as_u64().map(|w| w as usize), p["threads"].as_u64()? as usize, p["sched_seed"].as_u64()?, p["strategy"].as_str().map(|s| s.to_string())),
         None => {
             let mut irng = rng.fork(7);
@@ -147,7 +157,7 @@ pub fn run_example_arm(arm: &str, seed: u64, run: u64, agg: &mut Agg, explicit: 
     agg.distinct_case(crate::rng::mix(hash_json(&(&inst.content, width, threads)), trace));
     agg.sample(|| json!({"arm": arm, "seed": seed, "width": width, "threads": threads, "instance_file": inst.content, "expected_objective": inst.expected, "program_output": res.stdout.lines().filter(|l| !l.starts_with("Duration") && !l.starts_with("SIM-REPORT")).collect::<Vec<_>>()}));
     Some(if viol.is_empty() { None } else {
-        Some(ViolationRecord { arm: arm.into(), seed, run, violations: viol, replay: json!({"kind": "example", "arm": arm, "content": inst.content, "file_name": inst.file_name, "expected": inst.expected, "no_solution_prints": inst.no_solution_prints,
+        Some(ViolationRecord { arm: arm.into(), seed, run, violations: viol, replay: json!({"kind": "example", "arm": arm, "content": inst.content, "file_name": inst.file_name, "expected": inst.expected, "no_solution_prints": inst.no_solution_prints, "describe": inst.describe,
             "width": width, "threads": threads, "sched_seed": sched_seed, "strategy": strategy}) })
     })
 }
